@@ -1,12 +1,29 @@
 #!/venv/bin/python
-"""print the sub-agent prompt for a property id and worktree dir"""
-import json, sys
+"""print the sub-agent prompt for a property id and worktree dir
+
+usage: seed_prompt.py <ID> <worktree> [variant text]
+The prompt contains the property text only (nothing about the checks); to avoid duplicates
+it names, in one line each, the code areas earlier seeded changes already touched."""
+import glob
+import json
+import sys
 pid, wt = sys.argv[1], sys.argv[2]
 variant = sys.argv[3] if len(sys.argv) > 3 else ''
 p = [json.loads(l) for l in open('/verif/properties.jsonl') if json.loads(l)['id'] == pid][0]
+avoid = []
+for f in sorted(glob.glob('/verif/seeded/%s/*/meta.json' % pid)):
+    try:
+        m = json.load(open(f))
+        avoid.append('    - ' + ' '.join(str(m.get('summary', '')).split())[:220])
+    except Exception:
+        pass
+avoid_txt = ''
+if avoid:
+    avoid_txt = ('\nOther people have already tried the following changes; do something DIFFERENT (another code site, '
+                 'another construct, another kind of trigger):\n' + '\n'.join(avoid) + '\n')
 print(f"""You are helping test a verification effort for the Python library eerimoq/asn1tools (an ASN.1 toolkit: parser, compiler, BER/DER/PER/UPER/OER/XER/JER/GSER codecs, C source generators).
 
-You have your own scratch git worktree of the library at {wt} (work ONLY there; never touch /repo or /verif). Python with all dependencies is /venv/bin/python; run code against the worktree with `cd {wt} && /venv/bin/python ...` (the worktree is first on sys.path when you run from it; verify with `python -c "import asn1tools; print(asn1tools.__file__)"`).
+You have your own scratch git worktree of the library at {wt} (work ONLY there; never read or touch /repo or /verif — anything there is off limits, your result must be independent of it). Python with all dependencies is /venv/bin/python; run code against the worktree with `cd {wt} && /venv/bin/python ...` (the worktree is first on sys.path when you run from it; verify with `python -c "import asn1tools; print(asn1tools.__file__)"`).
 
 Here is a semantic property that the library is supposed to satisfy:
 
@@ -19,10 +36,10 @@ Your task: make ONE small, realistic change to the library source in {wt} (the k
   1. the library still imports and compiles specifications,
   2. the existing test suite still passes exactly as before: run `cd {wt} && /venv/bin/python -m pytest -q -p no:cacheprovider --timeout=900 2>&1 | tail -15` — the expected baseline is "7 failed, 486 passed" with these 7 pre-existing failures: test_codecs_consistency::test_c_source, test_command_line::test_command_line_generate_c_source_oer, ..._c_source_uper, ..._rust_source_uper, test_compile::test_missing_parameterized_value, test_oer::test_c_source, test_parse::test_parse_parameterization. After your change the result must be identical (same 7 failures, 486 passed).
   3. the bug needs something SPECIFIC to manifest — {variant or 'an unusual input (a particular boundary value, length, tag number, nesting or combination of constructs), a multi-step sequence, or two cooperating code sites that each look fine alone'} — not something any ordinary use would expose at once. Avoid trivially global breakage (e.g. every INTEGER wrong).
-
+{avoid_txt}
 Deliverables (write them under {wt}/_seed/):
   - patch.diff : `git -C {wt} diff` of your change (source files only, no tests)
-  - demo.py : a small standalone program that exits 0 on the unmodified library and exits 1 (printing what went wrong) with your change applied; it must use only the public API (asn1tools.compile_string / compile_dict / compile_files / parse_string, Specification.encode/decode/decode_with_length/decode_length, asn1tools.source.c.generate ...). Verify both directions yourself: run it with the change (fails), then `git stash`, run it (passes), `git stash pop`.
+  - demo.py : a small standalone program that exits 0 on the unmodified library and exits 1 (printing what went wrong) with your change applied; it must use only the public API (asn1tools.compile_string / compile_dict / compile_files / parse_string, Specification.encode/decode/decode_with_length/decode_length, asn1tools.source.c.generate ...). Verify both directions yourself: run it with the change (fails), then `git diff > _seed/patch.diff; git apply -R _seed/patch.diff`, run it (passes), `git apply _seed/patch.diff` (never use git stash: it is shared between worktrees).
   - meta.json : {{"property": "{pid}", "summary": "...", "needs": "what specific input/sequence is needed to manifest", "files_changed": [...], "tests_run": "the pytest summary line you observed"}}
 
 Do not edit tests. Do not commit. Keep the change minimal (a few lines). When done, reply with a 5-line summary: what you changed, what it needs to manifest, and the test-suite summary line you observed.""")
